@@ -92,6 +92,24 @@ func (chain *Chain) VerifC20AddSnapshot(s *common.Snapshot) error {
 	return err
 }
 
+// VerifC20AddSnapshotViaCopy is chain.AddSnapshot without the topology write: the
+// kernel's normal path (cosiHandleFinalization) validates and adds the snapshot on
+// a StateCopy of the chain and installs that copy with assignNewGraphRound.
+func (chain *Chain) VerifC20AddSnapshotViaCopy(s *common.Snapshot) error {
+	cache, final := chain.StateCopy()
+	err := cache.ValidateSnapshot(s)
+	if err != nil {
+		return err
+	}
+	err = cache.validateSnapshot(s, true)
+	if err != nil {
+		panic(err)
+	}
+	chain.assignNewGraphRound(final, cache)
+	chain.State.CacheRound.index.Store(s.Hash)
+	return nil
+}
+
 // VerifC20Start calls startNewRoundAndPersist with the chain's live cache round,
 // as prepareFinalization does.
 func (chain *Chain) VerifC20Start(references *common.RoundLink, timestamp uint64, finalized bool) (*CacheRound, *FinalRound, bool, error) {
